@@ -112,7 +112,13 @@ class TaskScheduler(object):
                 self._schedule_batch(task.batch)
                 self._tasks.pop()
             else:
-                task._compute()
+                try:
+                    task._compute()
+                except Exception as error:
+                    # The failure belongs to the future: keep it there so that the task
+                    # awaiting it receives it at its yield (and may catch it).
+                    if not task.is_computed():
+                        task.set_error(error)
                 self._tasks.pop()
 
     def _schedule_batch(self, batch):
